@@ -183,3 +183,16 @@ func pathEndsWith(v ssa.Value, suffix ...string) bool {
 	}
 	return true
 }
+
+// allocArrayLen returns the length of the array a heap Alloc creates.
+func allocArrayLen(a *ssa.Alloc) (int64, bool) {
+	pt, ok := a.Type().Underlying().(*types.Pointer)
+	if !ok {
+		return 0, false
+	}
+	at, ok := pt.Elem().Underlying().(*types.Array)
+	if !ok {
+		return 0, false
+	}
+	return at.Len(), true
+}
